@@ -29,3 +29,15 @@ def f3(cfg, items=()):
 def base3(items=()):
   """Keeps the very object it was given (a parsed literal) in the config."""
   return fdl.Config(nodes.node, x=0, y=fdl.Config(nodes.node_b, x=0, y=items))
+
+
+def tagged_base():
+  """A base configuration with one tag on two parameters."""
+  cfg = fdl.Config(nodes.node, x=1, y=2)
+  fdl.add_tag(cfg, 'x', nodes.TagC)
+  fdl.add_tag(cfg, 'y', nodes.TagC)
+  return cfg
+
+
+def set_x_to_fiddled(cfg):
+  cfg.x = 'fiddled'
